@@ -77,7 +77,7 @@ class C14(Prop):
             'shutdown_on': st.sampled_from(['same', 'same', 'same', 'older_thread']),
             'slow_send': st.sampled_from([False, False, False, True]),
             'bystander': st.sampled_from([False, False, True]),
-            'poll_timer': st.sampled_from(['ok'] * 9 + ['bad']),
+            'poll_timer': st.sampled_from(['ok'] * 9 + ['bad', 'zero', 'huge']),
         })
 
     def case_inflight(self, recipe):
@@ -165,6 +165,12 @@ class C14(Prop):
         custom = dict(BUILTIN_OFF, APP_ROOT='/app', PLUGINS=dotted, POLL_TIMER=1000, SERVICE_SECURE='False')
         if recipe.get('poll_timer') == 'bad':
             custom['POLL_TIMER'] = '10s'          # text that is not a number of seconds
+        if recipe.get('poll_timer') in ('zero', 'huge'):
+            # numbers no timer can wait for: whatever becomes of the polling, the agent can still be shut down. The
+            # shutdown is made by another thread, so that one that does not return can be told
+            custom['POLL_TIMER'] = {'zero': 0, 'huge': 1e10}[recipe['poll_timer']]
+            recipe = dict(recipe, shutdown_on='older_thread')
+            out.cls('poll_timer_no_timer_can_wait_for')
         if recipe['no_trace'] is not None:
             custom['NO_TRACE'] = recipe['no_trace']
             out.cls('no_trace' if recipe['no_trace'] in (True, 'True') else 'no_trace_ambiguous_text')
@@ -216,6 +222,7 @@ class C14(Prop):
         ever_started = False
         tracing_on = False
         timers = []
+        hung = []
         # a thread of the application that was running before the agent started and has a trace function of its own (a
         # debugger, a coverage tool): neither start nor shutdown has any business with it
         by_ask, by_answer, bystander = None, [], None
@@ -387,7 +394,13 @@ class C14(Prop):
                             except BaseException as e:      # noqa
                                 box.append(e)
                         older_jobs.put(job)
-                        older_done.wait(30)
+                        if not older_done.wait(5 if recipe.get('poll_timer') in ('zero', 'huge') else 30):
+                            hung.append(1)
+                            out.violate('shutdown did not return')
+                            for t in timers:
+                                t.interval = 1.0           # lets a timer thread that spins on its wait see the stop
+                            older_done.wait(10)
+                            break
                         older_done.clear()
                         exc = box[0] if box else None
                         # sys.settrace is per thread: what the calling thread's own hook is afterwards is not stated;
@@ -474,13 +487,24 @@ class C14(Prop):
                 by_ask.put(None)
                 bystander.join(10)
             try:
-                if d.started:
+                if d.started and not hung:
                     for s in specs:
                         s['faults'] = {}
-                    d.shutdown()
+                    if recipe.get('poll_timer') in ('zero', 'huge'):
+                        # clean-up only: never wait for ever on a timer thread that cannot be stopped
+                        cleaner = threading.Thread(target=d.shutdown, name='c14-cleanup', daemon=True)
+                        cleaner.start()
+                        cleaner.join(5)
+                        if cleaner.is_alive():
+                            hung.append(1)
+                            for t in timers:
+                                t.interval = 1.0
+                            cleaner.join(10)
+                    else:
+                        d.shutdown()
             except BaseException:      # noqa
                 pass
-            for t in timers:
+            for t in ([] if hung else timers):
                 try:
                     t.stop()
                 except BaseException:      # noqa
